@@ -154,14 +154,19 @@ class SymFactory:
         F = z3.Function(name, z3.StringSort(), z3.StringSort())
         return NativeFn(lambda x: SStr([('sym', F(to_z3_string(x)))]), name)
 
+    def mlist(self, name, builder, inv=None, pair_inv=None):
+        """a mutable list object of unknown length (see XList)"""
+        from .values import XList
+        return XList(self.seq(name, builder, inv, pair_inv), [], True)
+
     def seq(self, name, builder, inv=None, pair_inv=None, max_len=None):
         """a list of unknown length whose elements are built by builder(element factory)"""
         from .seq import SeqSource, SSeq
         I = self.I
         outer = self
 
-        def elem_builder(suffix):
-            ef = SymElemFactory(I, f'{name}[{suffix}].')
+        def elem_builder(suffix, index=None):
+            ef = SymElemFactory(I, f'{name}[{suffix}].' if index is None else f'{name}.', index)
             e = I.call(builder, [ef], {})
             ef.value = e
             elem_builder.factories[suffix] = ef
@@ -191,17 +196,25 @@ class SymElemFactory:
     _pyvc_native = True
     symbolic = True
 
-    def __init__(self, I, prefix):
+    def __init__(self, I, prefix, index=None):
         self.I, self.prefix = I, prefix
+        self.index = index          # element at a symbolic index: every field is a function of the index
         self.constraints = []
         self.value = None
 
     def _reg(self, name, var):
-        self.I.input_vars[self.prefix + name] = var
+        if self.index is None:
+            self.I.input_vars[self.prefix + name] = var
         return var
 
+    def _var(self, name, sort):
+        full = self.prefix + name
+        if self.index is not None:
+            return z3.Function(full, z3.IntSort(), sort)(self.index)
+        return z3.Const(full, sort)
+
     def int(self, name, lo=None, hi=None):
-        v = self._reg(name, z3.Int(self.prefix + name))
+        v = self._reg(name, self._var(name, z3.IntSort()))
         if lo is not None:
             self.constraints.append(v >= lo)
         if hi is not None:
@@ -209,20 +222,20 @@ class SymElemFactory:
         return v
 
     def bool(self, name):
-        return self._reg(name, z3.Bool(self.prefix + name))
+        return self._reg(name, self._var(name, z3.BoolSort()))
 
     def enum(self, name, cls):
-        v = self._reg(name, z3.Int(self.prefix + name))
+        v = self._reg(name, self._var(name, z3.IntSort()))
         self.constraints.append(z3.And(v >= 0, v < len(self.I.enum_members(cls))))
         return SEnum(cls, v)
 
     def enum_in(self, name, cls, allowed):
-        v = self._reg(name, z3.Int(self.prefix + name))
+        v = self._reg(name, self._var(name, z3.IntSort()))
         self.constraints.append(z3.Or(*[v == m.index for m in allowed]))
         return SEnum(cls, v)
 
     def str_sym(self, name, corpus=None):
-        v = self._reg(name, z3.String(self.prefix + name))
+        v = self._reg(name, self._var(name, z3.StringSort()))
         return SStr([('sym', v)])
 
     def str_for(self, name, key, corpus_by_key):
@@ -239,6 +252,10 @@ class SymElemFactory:
         t = self.I.truth(cond)
         if t is not True:
             self.constraints.append(zbool(t))
+
+    def mlist(self, name, builder, inv=None, pair_inv=None):
+        from .values import XList
+        return XList(self.seq(name, builder, inv, pair_inv), [], True)
 
     def seq(self, name, builder, inv=None, pair_inv=None, max_len=None):
         # a sequence inside an element (e.g. the sub-tokens of one note of a chord): its names carry the element suffix
@@ -367,6 +384,9 @@ class ConcreteFactory:
     def str_fn(self, name):
         return lambda x: '<' + x + '>'
 
+    def mlist(self, name, builder, inv=None, pair_inv=None):
+        return self.seq(name, builder, inv, pair_inv)
+
     def seq(self, name, builder, inv=None, pair_inv=None, max_len=None):
         """list from a model: explicit name.len + name[k].*, or the canonical elements name[j].*, name[i].* of a pointwise
         counterexample (in that order, see DESIGN 5.2), or random."""
@@ -433,6 +453,9 @@ class ConcreteElemFactory:
     def seq(self, name, builder, inv=None, pair_inv=None, max_len=None):
         return self.parent.seq(self.prefix + name, builder, inv, pair_inv, max_len)
 
+    def mlist(self, name, builder, inv=None, pair_inv=None):
+        return self.parent.seq(self.prefix + name, builder, inv, pair_inv)
+
 
 # --------------------------------------------------------------------------------------------------- registry glue
 class Registry:
@@ -465,12 +488,16 @@ class Registry:
         if f is None:
             return None
         params = [p.arg for p in f.node.args.args + f.node.args.kwonlyargs]
+        ndef = len(f.node.args.defaults)
+        with_default = set(p.arg for p in f.node.args.args[len(f.node.args.args) - ndef:]) if ndef else set()
         kwargs = {}
         for p in params:
             if p in values:
                 kwargs[p] = values[p]
             elif '_' + p in values:
                 kwargs[p] = values['_' + p]
+            elif p in with_default:
+                continue
             else:
                 raise RuntimeError(f'contract {ci.name}.{name}: no value for parameter {p}')
         saved = I.modular
@@ -480,6 +507,17 @@ class Registry:
             return I.call_function(f, [], kwargs, force_inline=True)
         finally:
             I.modular = saved
+
+    def apply_external(self, I, ci: ContractInfo, args, kwargs):
+        """assumed contract of a standard-library function: clauses see `args` (positional tuple) and the keywords by name"""
+        values = {'args': tuple(args), 'kwargs': dict(kwargs)}
+        values.update(kwargs)
+        I.contract_uses.append((ci.name, I.cur_func, I.cur_line))
+        if ci.has('requires'):
+            pre = I.truth(self.call_clause(I, ci, 'requires', values))
+            I.oblige('pre', f'{ci.name}@{I.cur_line}', pre)
+            I.assume(pre)
+        return self.call_clause(I, ci, 'model', values) if ci.has('model') else None
 
     def apply_closure_contract(self, I, ci: ContractInfo, c, args, kwargs):
         """contract of a nested function: its clauses see the parameters and the captured variables of the defining scope"""
